@@ -346,6 +346,38 @@ func VH_C04_invoke() {
 		vx.Assert(len(vals) == 1 && vals[0].Kind() == reflect.Int && int(vals[0].Int()) == 40+len(sig), "C04: results come back unchanged")
 	}
 	vx.Observe("invoke", vx.Param("sig"), fast, missing, calls)
+
+	// ---- second phase: a later registration replaces the earlier, also after
+	// the type has already been resolved once (resolution must not be remembered)
+	if vx.ParamInt("rereg") != 1 {
+		return
+	}
+	var cand [][2]int // (scope, type) pairs that hold a registration relevant to the signature
+	for s := range w.scopes {
+		for t := 0; t < nTypes; t++ {
+			if w.present[s][t] {
+				cand = append(cand, [2]int{s, t})
+			}
+		}
+	}
+	if len(cand) == 0 {
+		return
+	}
+	pick := cand[vx.Choice(len(cand))]
+	newTag := 20 + pick[0]
+	vRegister(w.scopes[pick[0]], pick[1], newTag)
+	w.tag[pick[0]][pick[1]] = newTag
+	got, calls = nil, 0
+	_, err2 := w.scopes[0].Invoke(f)
+	if missing < 0 {
+		vx.Assert(err2 == nil && calls == 1, "C04: re-invocation after a re-registration runs the body once")
+		if calls == 1 && len(got) == len(sig) {
+			for i, t := range sig {
+				vx.Assert(vIn(vTagOf(t, got[i]), w.vResolve(t)), "C04: a later registration for the same type in the same scope replaces the earlier, also after that type was resolved before")
+			}
+		}
+	}
+	vx.Observe("reinvoke", pick[0], pick[1], calls)
 }
 
 // ---- harness: Apply ----------------------------------------------------------
